@@ -103,6 +103,12 @@ def generate_case(rng_world, rng_swarm, rng_sched, profile):
             st["at"] = rng_sched.choice([0, 0, 1, 2, 9])
             npar += 1
         steps.append(st)
+        if k == "set" and rng_sched.random() < 0.12:
+            # the same assignment once more, on another (or the same) paragraph
+            again = dict(st)
+            again["p"] = rng_sched.randrange(max(npar, 1))
+            again["retry"] = True
+            steps.append(again)
     return {"world": {"doc": doc.to_json(), "dup": dup}, "trace": steps}
 
 
